@@ -6,7 +6,7 @@ import itertools
 import functional as fx
 import gen
 import sut
-from engine import Outcome
+from engine import Outcome, jsonable
 
 FNS = [f for f in gen.GENERATORS if f != "pressure"]
 WHAT = "IoosQc.C02_main (C02.holds)"
@@ -47,7 +47,8 @@ def run(out: Outcome, drv):
     n_rand = 600 if out.tier == "quick" else 15000
     out.rule = (f"for each test that documents missing handling: base cases of length 0..{maxn} with ALL 2^n placements of missing "
                 f"values in the data and (n<=4) independently all 2^n in depth/latitude (exhaustive per base case), every "
-                f"climatology member shape from the generator, plus seeded longer series; non-trivial = >= 2 distinct flags")
+                f"climatology member shape from the generator, plus seeded longer series, plus speed / rate-of-change series with a repeated "
+                f"timestamp (judged by C02.holds alone); non-trivial = >= 2 distinct flags")
     corp = fx.corpus_items("C02")
     if corp:
         fx.run_cases(out, drv, corp, verdict, WHAT, want_spec=True)
@@ -76,4 +77,27 @@ def run(out: Outcome, drv):
             fx.run_cases(out, drv, items[i:i + 4000], verdict, WHAT, want_spec=True)
             if len(out.violations) >= 5:
                 break
+    # Repeated timestamps (two fixes logged in the same second; sampling faster than the whole seconds the rate tests work in):
+    # outside the domain of the functional properties (the rate is undefined there), but C02 still speaks — a present
+    # observation whose predecessor is present must not come back MISSING.  Judged by C02.holds alone.
+    for fn in ("speed", "roc"):
+        rng = gen.rng_for(out.seed, "C02", fn, "repeated-timestamps")
+        items = []
+        for _ in range(150 if out.tier == "quick" else 3000):
+            c = gen.GENERATORS[fn](rng, 8)
+            n = len(c["t"])
+            if n < 2 or any(len(c[k]) != n for k in fx.SERIES_KEYS[fn]):
+                continue
+            c = dict(c, t=list(c["t"]))
+            for i in rng.sample(range(1, n), rng.randint(1, min(2, n - 1))):
+                c["t"][i] = c["t"][i - 1]
+            c["t"] = sorted(c["t"])
+            items.append((fx.refresh(c), *fx.pick_carriers(c, rng)))
+        for (case, ca, tc, sk), (obs, ans) in zip(items, fx.evaluate(drv, items, want_spec=False)):
+            out.record(case, fx.nontrivial(obs), [f"fn:{fn}", "repeated-timestamps"])
+            bad = verdict(case, obs, ans)
+            if bad is not None:
+                out.violation(f"{WHAT}: {bad} (time axis with a repeated timestamp)",
+                              {"fn": fn, "case": jsonable(case), "carriers": [ca, tc, sk],
+                               "observed": obs, "python": fx.repro_line(case, (ca, tc, sk))})
     out.exhaustive = False
